@@ -151,7 +151,9 @@ func (r *run) info(id int) *connInfo {
 // bounds returns how many earlier accepted, non-rejected connections are certainly still counted as live by a
 // correct server (lo) and how many may still be counted (hi). A connection is certainly live while neither side has
 // closed it, its handler has not panicked and no shutdown/cancel is under way; it is certainly gone once it was seen
-// closed at a quiescence point (its teardown cannot still be running) or its close callback has run.
+// closed at a quiescence point (its teardown cannot still be running). Anything in between may or may not be counted:
+// the server reads its counter before it calls the callback, so the number may be stale by the connections that ended
+// in between.
 func (r *run) bounds() (lo, hi int) {
 	for _, sc := range r.net.Conns {
 		ci := r.conn[sc.ID()]
@@ -162,7 +164,7 @@ func (r *run) bounds() (lo, hi int) {
 		case !sc.IsClosed() && !sc.PeerClosed() && !r.shutCalled && !r.cancelled && !ci.panicked:
 			lo++
 			hi++
-		case ci.settledDead || ci.closeCbs > 0:
+		case ci.settledDead:
 		default:
 			hi++
 		}
@@ -288,6 +290,16 @@ func (r *run) main() {
 			case "panic":
 				ci.panicked = true
 				panic("handler panic (harness)")
+			case "panic-error":
+				ci.panicked = true
+				panic(errors.New("handler panic with an error value (harness)"))
+			case "panic-runtime":
+				ci.panicked = true
+				var m map[string]int
+				m["x"] = 1 // runtime error: assignment to entry in nil map
+			case "panic-int":
+				ci.panicked = true
+				panic(42)
 			case "nil-nil":
 				ci.panicked = true
 				r.h.Mode = "nil-nil-once"
@@ -731,7 +743,11 @@ func (r *run) final() {
 			if string(cs.sent[j]) != string(f.Bytes) {
 				continue // sendbad: not a request
 			}
-			switch sc.Handler {
+			hk := sc.Handler
+			if m, ok := sc.HandlerByConn[cs.conn.ID()]; ok && j == 0 {
+				hk = m
+			}
+			switch hk {
 			case "generic-error":
 				exp.Valid = false
 			case "typed-error":
